@@ -276,8 +276,10 @@ class GeneratorContext:
     @contextlib.contextmanager
     def with_var_indirection_override(self, has_override: bool = True):
         self._var_indirection_override.append(has_override)
-        yield
-        self._var_indirection_override.pop()
+        try:
+            yield
+        finally:
+            self._var_indirection_override.pop()
 
     @property
     def has_var_indirection_override(self) -> bool:
@@ -303,8 +305,10 @@ class GeneratorContext:
                 loop_id, type_, binding_names=binding_names, is_variadic=is_variadic
             )
         )
-        yield
-        self._recur_points.pop()
+        try:
+            yield
+        finally:
+            self._recur_points.pop()
 
     @property
     def symbol_table(self) -> SymbolTable:
@@ -315,8 +319,10 @@ class GeneratorContext:
         old_st = self.symbol_table
         with old_st.new_frame(name, is_context_boundary) as st:
             self._st.append(st)
-            yield st
-            self._st.pop()
+            try:
+                yield st
+            finally:
+                self._st.pop()
 
     @property
     def current_this(self) -> sym.Symbol:
@@ -325,8 +331,10 @@ class GeneratorContext:
     @contextlib.contextmanager
     def new_this(self, this: sym.Symbol):
         self._this.append(this)
-        yield
-        self._this.pop()
+        try:
+            yield
+        finally:
+            self._this.pop()
 
     def GeneratorException(
         self,
